@@ -472,7 +472,14 @@ impl RawAutomaton {
         let mut power_transitions = Vec::with_capacity(self.transitions.len());
         let mut final_states =
             FxHashSet::with_capacity_and_hasher(self.final_states.len(), FxBuildHasher);
-        let markers = Vec::from_iter(self.markers.clone());
+        // Completing an automaton adds the missing transitions for all the letters
+        // carrying one of its own markers. An automaton without any transition has
+        // no marker at all: it is then completed over the unmarked letters.
+        let mut marker_set = self.markers.clone();
+        if completion && marker_set.is_empty() {
+            marker_set.insert(0);
+        }
+        let markers = Vec::from_iter(marker_set.clone());
 
         while let Some(power_state) = pending.pop() {
             if let Entry::Vacant(entry) = visited.entry(power_state.clone()) {
@@ -534,7 +541,7 @@ impl RawAutomaton {
             initial_state: 0,
             final_states,
             transitions,
-            markers: self.markers,
+            markers: marker_set,
         }
     }
 
@@ -682,7 +689,8 @@ impl RawAutomaton {
             // False in general, but true in many practical cases. Will be double checked in the
             // next instruction.
             deterministic: false,
-            complete: automata.iter().all(|a| a.complete),
+            // The empty concatenation (epsilon) has no transitions, hence is not complete.
+            complete: !automata.is_empty() && automata.iter().all(|a| a.complete),
             final_states,
             initial_state,
             markers,
